@@ -1055,3 +1055,59 @@ Theorem source_phrases_one_for_one files :
   filter (fun r => negb (is_single r)) (rev (co_entries (collect_files files))) =
   filter (fun r => negb (is_single r)) (flat_map coded (source_rows files)).
 Proof. rewrite collect_files_fold. rewrite run_rows_multi. reflexivity. Qed.
+
+(** * The arrays std::lower_bound searches are key-sorted *)
+
+Section IndexSorted.
+  Variable F : Type.
+  Variable cast : dec -> F.
+
+  Definition keys_sorted {A} (t : list (inode F A)) : Prop := StronglySorted lt (map n_key t).
+  Definition ix_sorted3 (t : trunk3 F) : Prop := keys_sorted t.
+  Definition ix_sorted2 (t : trunk2 F) : Prop :=
+    keys_sorted t /\ Forall (fun n => match n_next n with Some t3 => ix_sorted3 t3 | None => True end) t.
+  Definition ix_sorted_head (h : head F) : Prop :=
+    Forall (fun n => match h_next n with Some t2 => ix_sorted2 t2 | None => True end) h.
+
+  Lemma build_trunk_keys {A B} (bn : A -> B) (v : lvl A) :
+    map n_key (build_trunk F cast bn v) = map fst v.
+  Proof. unfold build_trunk. rewrite map_map. reflexivity. Qed.
+
+  Lemma build_trunk3_sorted S v : wf3 S v -> ix_sorted3 (build_trunk3 cast v).
+  Proof. intros [Hs _]. unfold ix_sorted3, keys_sorted, build_trunk3. now rewrite build_trunk_keys. Qed.
+
+  Lemma build_trunk2_sorted S v : wf2 S v -> ix_sorted2 (build_trunk2 cast v).
+  Proof.
+    intros [Hs Hb]. split.
+    - unfold keys_sorted, build_trunk2. now rewrite build_trunk_keys.
+    - unfold build_trunk2, build_trunk. rewrite Forall_map. eapply Forall_impl; [|exact Hb].
+      intros [k p] [_ Hp]. cbn in *. destruct (p_next p) as [n|]; cbn; [|exact I]. now apply (build_trunk3_sorted S).
+  Qed.
+
+  Lemma set_nth_Forall {A} (P : A -> Prop) i x l : P x -> Forall P l -> Forall P (set_nth i x l).
+  Proof.
+    intros Hx Hl. revert i. induction Hl as [|y l Hy Hl IH]; intros [|i]; cbn; constructor; auto.
+  Qed.
+
+  Theorem build_head_sorted S v : wf1 S v -> ix_sorted_head (build_head cast S v).
+  Proof.
+    intros [_ Hb]. unfold ix_sorted_head, build_head.
+    assert (H0 : Forall (fun n : hnode F => match h_next n with Some t2 => ix_sorted2 t2 | None => True end)
+                        (repeat (hnode0 F) S)).
+    { apply Forall_forall. intros x Hx. apply repeat_spec in Hx. subst. exact I. }
+    revert H0. generalize (repeat (hnode0 F) S).
+    induction Hb as [|[k p] r [_ Hp] _ IH]; intros arr Harr; cbn [fold_left]; [exact Harr|].
+    apply IH. apply set_nth_Forall; [|exact Harr]. cbn in *.
+    destruct (p_next p) as [n|]; cbn; [|exact I]. now apply (build_trunk2_sorted S).
+  Qed.
+End IndexSorted.
+
+Theorem index_keys_sorted_source {F} (cast : dec -> F) (sort_original : bool) (files : list (colspec * list bytes)) :
+  let c := collect_files files in
+  ix_sorted_head F (build_head cast (length (co_syll c)) (compile_vocab sort_original c)).
+Proof.
+  intros c. apply (build_head_sorted F cast (length (co_syll c))). unfold compile_vocab.
+  assert (H : wf1 (length (co_syll c)) (vocab_of (entries_of c))).
+  { apply vocab_of_wf. apply entries_of_ids. apply collect_files_inv. }
+  destruct sort_original; [exact H|now apply sort1_wf].
+Qed.
